@@ -164,7 +164,7 @@ func runCheck(prop, tier string, seed int) (int, *Evidence) {
 			}
 			r = GenCFunc(P, db, strings.TrimPrefix(k, "C."), s)
 			if r.Skipped != "" {
-				return fail("%s: %s", k, r.Skipped)
+				notApplicable(r)
 			}
 			r.Tags = "C (clang AST)"
 			for _, c := range r.Callees {
@@ -193,7 +193,7 @@ func runCheck(prop, tier string, seed int) (int, *Evidence) {
 			}
 			r = GenFunc(P, db, fn, s)
 			if r.Skipped != "" {
-				return fail("%s: %s", k, r.Skipped)
+				notApplicable(r)
 			}
 			r.Tags = tags
 			for _, c := range r.Callees {
@@ -229,7 +229,10 @@ func runCheck(prop, tier string, seed int) (int, *Evidence) {
 			}
 		}
 	}
-	results = append(results, LemmaObligations(prop)...)
+	if P, err := loadCfg("verif"); err == nil {
+		InstallDerivedLemmas(P, db)
+	}
+	results = append(results, LemmaObligationsFor(prop, results)...)
 	if P, err := Load(RepoDir, "verif"); err == nil {
 		if r := InvariantWriterObligations(P, db, prop); r != nil {
 			results = append(results, r)
@@ -372,6 +375,16 @@ func runCheck(prop, tier string, seed int) (int, *Evidence) {
 	}
 	ev.Coverage["violations"] = vsamples
 	return 1, ev
+}
+
+// notApplicable: the contract of a function can no longer be checked against its body (the body left the translated
+// subset, or the contract names a variable or loop the body no longer has). On the unchanged tree this never happens;
+// after a change to the code it means that every obligation of that function that used to be discharged is now
+// undischarged, which is reported as one failing obligation of the function (not as an engine error).
+func notApplicable(r *FuncResult) {
+	r.Obls = []*Obl{{Name: r.Key + ":contract-no-longer-applies", Kind: "contract-applies", Func: r.Key, Pos: r.Pos,
+		Goal: "false", Result: "not generated", Solver: "vcheck", Model: r.Skipped, Presolved: true}}
+	r.Decls, r.Cmds = nil, nil
 }
 
 func trunc(s string, n int) string {
